@@ -103,6 +103,24 @@ def impl_replay(job):
                 res = {"ok": False, "what": "draws", "detail": "consumed %d draws, the behaviour has %d" % (used, len(init_draws) + len(draws))}
             elif not all(close(a, b, 1e-9) for a, b in zip(vols, wantv)):
                 res = {"ok": True, "drift": "volume trace %r differs from the design's %r but is within one step" % (vols, wantv)}
+            if res["ok"] and vm["kind"] == "time" and job["via"] != 2:
+                # the SAME volume object, re-initialised, on a grid twice as fine (a continued / repeated experiment):
+                # the reported volume must again be positive, non-decreasing and within one step of V0 * exp(g t)
+                dt2 = dt / 2.0
+                tp2 = np.array([i * dt2 for i in range(nt)])
+                brandom.py_seed_random(12345 + len(rec["steps"]))
+                vol.py_set_volume(V0)
+                vol.py_initialize(m.get_species_array().astype(float), m.get_parameter_values().astype(float), 0.0, V0)
+                itf2 = SafeModelCSimInterface(m) if rec["safe"] else ModelCSimInterface(m)
+                itf2.py_set_dt(dt2)
+                r2 = VolumeSSASimulator().py_volume_simulate(itf2, vol, tp2)
+                v2 = [float(x) for x in r2.py_get_volume()]
+                g = LN2 / dt
+                law = [V0 * math.exp(g * t) for t in tp2[:len(v2)]]
+                step = math.exp(g * dt2)
+                if any(not (x > 0) for x in v2) or any(v2[i + 1] < v2[i] * (1 - 1e-12) for i in range(len(v2) - 1)) or \
+                        any(not (l / step * (1 - 1e-9) <= x <= l * step * (1 + 1e-9)) for x, l in zip(v2, law)):
+                    res = {"ok": False, "what": "volume-law-reused-object", "detail": "second run with the same volume object on grid step %r: volumes %r, growth law %r" % (dt2, v2, law)}
         except BaseException as e:  # noqa
             try:
                 brandom.py_verif_script(None)
